@@ -142,6 +142,20 @@ def admitsNull (j : JS) : Bool :=
   | .ok s => s.acceptsNull
   | .error _ => false
 
+/-- the Intersection built for an allOf has a strict-mode object as one of its sides (directly or through a nested
+    Intersection): there gozod merges the sides' unrecognized-keys issues (a key is an error only when NO side knows it),
+    which C07's `accepts (.and l r)` (plain conjunction) does not mirror — the listed class `intersection`.  Every other
+    allOf (open objects, records, scalars, arrays, unions …) IS a conjunction and is judged like any other document. -/
+def strictSide : S → Bool
+  | .obj .strict _ _ _ _ => true
+  | .and l r => strictSide l || strictSide r
+  | _ => false
+
+def hasStrictSide (j : JS) : Bool :=
+  match fromJS rejects false j with
+  | .ok s => strictSide s
+  | .error _ => false
+
 /-- annotation keywords: they assert nothing (`Kw.other` is vacuous in `jsValid`, and that IS their meaning). -/
 def annotations : List String := ["title", "description", "examples", "default", "$comment", "deprecated", "readOnly", "writeOnly"]
 
@@ -203,7 +217,8 @@ partial def whyKw : Kw → List String
   | .additionalProperties j => why j
   | .anyOf js => (if decide ((jsList js).length > 1) && (jsList js).any admitsNull then ["nullable-union"] else []) ++ ((jsList js).map why).flatten
   | .oneOf js => (if decide ((jsList js).length > 1) && (jsList js).any admitsNull then ["nullable-union"] else []) ++ ((jsList js).map why).flatten
-  | .allOf js => (if decide ((jsList js).length > 1) then ["intersection"] else []) ++ ((jsList js).map why).flatten
+  | .allOf js => (if decide ((jsList js).length > 1) && (jsList js).any hasStrictSide then ["intersection"] else [])
+      ++ ((jsList js).map why).flatten
   | .ref j => why j
   | .not j => why j
   | _ => []
